@@ -25,6 +25,10 @@ def build(variant="", quiet=True):
     if flags:
         cfg += ["-DCMAKE_CXX_FLAGS=" + flags, "-DCMAKE_SHARED_LINKER_FLAGS=" + flags, "-DCMAKE_MODULE_LINKER_FLAGS=" + flags]
     t0 = time.time()
+    import fcntl
+    os.makedirs(os.path.join(VERIF, "build"), exist_ok=True)
+    lock = open(b + ".lock", "w")
+    fcntl.flock(lock, fcntl.LOCK_EX)  # concurrent checks share this build directory
     r = subprocess.run(cfg, stdout=subprocess.PIPE, stderr=subprocess.STDOUT, text=True)
     if r.returncode:
         sys.stderr.write(r.stdout[-4000:]); raise SystemExit(2)
